@@ -47,7 +47,7 @@ fn dummy_contract() -> Box<dyn Contract<Empty>> {
     Box::new(ContractWrapper::new_with_empty(dummy_exec, dummy_inst, dummy_query).with_migrate(dummy_migrate))
 }
 
-pub struct W16 { pub w: World, pub dummy_code: u64, pub hook: Addr, pub phase: u8 }
+pub struct W16 { pub w: World, pub dummy_code: u64, pub hook: Addr, pub phase: u8, pub failed_transfers: Vec<C>, pub sibling_ix: usize }
 
 pub fn exec_json(app: &mut App, sender: &Addr, contract: &Addr, msg: &Value, funds: &[Coin]) -> anyhow::Result<AppResponse> {
     let mut f = funds.to_vec();
@@ -96,7 +96,7 @@ pub fn world16(phase: u8) -> W16 {
     let dummy_code = w.app.store_code(dummy_contract());
     let hook = w.app.instantiate_contract(dummy_code, adm.clone(), &Empty {}, &[], "dummy", None).unwrap();
     must(exec_json(&mut w.app, &adm, &w.epoch_manager.clone(), &json!({"add_hook": {"contract_addr": hook.to_string()}}), &[]), "epoch hook");
-    let mut x = W16 { w, dummy_code, hook, phase };
+    let mut x = W16 { w, dummy_code, hook, phase, failed_transfers: vec![], sibling_ix: 0 };
     if phase == 1 { x.transfer_top(); }
     if phase == 2 { x.transfer_children(); }
     x
@@ -133,26 +133,46 @@ impl W16 {
         let adm = admin();
         for c in [C::Factory, C::IncentiveFactory, C::Helper, C::VaultFactory, C::VaultRouter, C::Collector, C::Distributor, C::Lair, C::EpochManager] {
             let (t, m) = self.transfer_msg(c, NEW_ADMIN);
-            must(exec_json(&mut self.w.app, &adm, &t, &m, &[]), "ownership transfer");
+            if exec_json(&mut self.w.app, &adm, &t, &m, &[]).is_err() { self.failed_transfers.push(c); }
         }
         // the router's owner is its wasm admin
-        self.w.app.execute(adm, CosmosMsg::Wasm(WasmMsg::UpdateAdmin { contract_addr: self.w.router.to_string(), admin: NEW_ADMIN.to_string() })).expect("router admin transfer");
+        if self.w.app.execute(adm, CosmosMsg::Wasm(WasmMsg::UpdateAdmin { contract_addr: self.w.router.to_string(), admin: NEW_ADMIN.to_string() })).is_err() { self.failed_transfers.push(C::Router); }
     }
     pub fn transfer_children(&mut self) {
         let adm = admin();
         let (f, vf) = (self.w.factory.clone(), self.w.vault_factory.clone());
-        must(exec_json(&mut self.w.app, &adm, &f, &json!({"update_pair_config": {"pair_addr": self.w.pair.to_string(), "owner": NEW_ADMIN, "fee_collector_addr": null, "pool_fees": null, "feature_toggle": null}}), &[]), "pair ownership");
-        must(exec_json(&mut self.w.app, &adm, &f, &json!({"update_trio_config": {"trio_addr": self.w.trio.to_string(), "owner": NEW_ADMIN, "fee_collector_addr": null, "pool_fees": null, "feature_toggle": null, "amp_factor": null}}), &[]), "trio ownership");
-        must(exec_json(&mut self.w.app, &adm, &vf, &json!({"update_vault_config": {"vault_addr": self.w.vault.to_string(), "params": {"flash_loan_enabled": null, "deposit_enabled": null, "withdraw_enabled": null,
-            "new_owner": NEW_ADMIN, "new_vault_fees": null, "new_fee_collector_addr": null}}}), &[]), "vault ownership");
+        let msgs = [
+            (C::Pair, f.clone(), json!({"update_pair_config": {"pair_addr": self.w.pair.to_string(), "owner": NEW_ADMIN, "fee_collector_addr": null, "pool_fees": null, "feature_toggle": null}})),
+            (C::Trio, f, json!({"update_trio_config": {"trio_addr": self.w.trio.to_string(), "owner": NEW_ADMIN, "fee_collector_addr": null, "pool_fees": null, "feature_toggle": null, "amp_factor": null}})),
+            (C::Vault, vf, json!({"update_vault_config": {"vault_addr": self.w.vault.to_string(), "params": {"flash_loan_enabled": null, "deposit_enabled": null, "withdraw_enabled": null,
+                "new_owner": NEW_ADMIN, "new_vault_fees": null, "new_fee_collector_addr": null}}})),
+        ];
+        for (c, target, m) in msgs {
+            if exec_json(&mut self.w.app, &adm, &target, &m, &[]).is_err() { self.failed_transfers.push(c); }
+        }
     }
 
     pub fn parent(&self, c: C) -> Addr {
         match c { C::Pair | C::Trio => self.w.factory.clone(), C::Incentive => self.w.incentive_factory.clone(), C::Vault => self.w.vault_factory.clone(),
                   C::Factory => self.w.vault_factory.clone(), _ => self.w.factory.clone() }
     }
-    /// a contract of the world that is neither the target, its parent nor involved in the target's own calls (the router and the helper act on the pair)
-    pub fn sibling(&self, c: C) -> Addr { if c == C::Trio { self.w.pair.clone() } else { self.w.trio.clone() } }
+    /// the other contracts of the world that may play `sibling contract` for target `c`: not the target, not its parent, not the designated
+    /// contract of the variant, and not a pool the target itself trades through (the router and the helper act on the pair)
+    pub fn sibling_pool(&self, c: C, variant: &str) -> Vec<Addr> {
+        let me = self.addr(c);
+        let (par, des) = (self.parent(c), self.designated(c, variant));
+        let mut v: Vec<Addr> = vec![];
+        // the default sibling first
+        let first = if c == C::Trio { self.w.pair.clone() } else { self.w.trio.clone() };
+        v.push(first);
+        for (name, a) in self.w.contracts() {
+            if a == me || a == par || a == des || v.contains(&a) { continue; }
+            if matches!(name, "pair" | "pair_lp" | "trio_lp" | "vault_lp" | "cw20") { continue; }   // token contracts and the traded pair are state-involved callers
+            v.push(a);
+        }
+        v
+    }
+    pub fn sibling(&self, c: C, variant: &str) -> Addr { let p = self.sibling_pool(c, variant); p[self.sibling_ix % p.len()].clone() }
     pub fn designated(&self, c: C, variant: &str) -> Addr {
         match (c, variant) {
             (C::Pair, "Receive") => self.w.pair_lp.clone(), (C::Trio, "Receive") => self.w.trio_lp.clone(), (C::Vault, "Receive") => self.w.vault_lp.clone(),
@@ -162,7 +182,7 @@ impl W16 {
         }
     }
     pub fn who_addr(&self, c: C, variant: &str, who: Who) -> Addr {
-        match who { Who::Admin => admin(), Who::NewAdmin => Addr::unchecked(NEW_ADMIN), Who::Parent => self.parent(c), Who::Sibling => self.sibling(c),
+        match who { Who::Admin => admin(), Who::NewAdmin => Addr::unchecked(NEW_ADMIN), Who::Parent => self.parent(c), Who::Sibling => self.sibling(c, variant),
                     Who::User => Addr::unchecked(USER), Who::SelfC => self.addr(c), Who::Designated => self.designated(c, variant) }
     }
 
@@ -330,7 +350,7 @@ pub fn payloads(x: &W16, c: C, a: &Addr) -> Vec<Payload> {
 
 /// the property's own list (properties.jsonl C16): who may perform (c, variant); None = not named by the property
 #[derive(Clone, Copy, PartialEq, Debug)]
-pub enum Need { Owner, SelfOnly, DesignatedOnly }
+pub enum Need { Owner, SelfOnly, DesignatedOnly, CreatorOrFactoryOwner }
 pub fn property_need(c: C, v: &str) -> Option<Need> {
     match (c, v) {
         (C::Pair | C::Trio, "UpdateConfig") => Some(Need::Owner),
@@ -343,6 +363,7 @@ pub fn property_need(c: C, v: &str) -> Option<Need> {
         (C::VaultRouter, "NextLoan") => Some(Need::DesignatedOnly),
         (C::VaultRouter, "CompleteLoan") => Some(Need::SelfOnly),
         (C::Collector, "ForwardFees") => Some(Need::DesignatedOnly),
+        (C::Incentive, "CloseFlow") => Some(Need::CreatorOrFactoryOwner),   // anchor incentive/src/execute/close_flow.rs
         _ => None,
     }
 }
@@ -367,8 +388,9 @@ pub fn full_snapshot(x: &W16) -> Vec<(String, Vec<u8>, Vec<u8>)> {
 pub struct CellResult { pub accepted: bool, pub frame_ok: bool, pub err: String, pub prepared: bool }
 
 /// one cell of the matrix on a fresh world
-pub fn run_cell(out: &mut Out, phase: u8, c: C, variant: &str, k: usize, who: Who) -> CellResult {
+pub fn run_cell(out: &mut Out, phase: u8, c: C, variant: &str, k: usize, who: Who, sib: usize) -> CellResult {
     let mut x = world16(phase);
+    x.sibling_ix = sib;
     let a = x.who_addr(c, variant, who);
     let prepared = x.prepare_actor(&a, out);
     let pl = payloads(&x, c, &a).into_iter().find(|p| p.variant == variant && p.k == k).expect("payload");
@@ -423,14 +445,14 @@ pub fn rust_inventory(c: C) -> Vec<String> {
 /// observation of a cell: [0] accepted / [1] rejected; [9] for a cell of a not sender-checked variant whose caller could not be prepared like the reference
 fn model_obs_shape(c: C, variant: &str, cmp: u8, accepted: bool) -> Vec<String> {
     // which variants the code guards by sender (restated here; the Coq tables are the reference and a difference shows as a disagreement)
-    let sender_checked = (property_need(c, variant).is_some() && !(c == C::Router && variant == "AssertMinimumReceive")) || matches!((c, variant), (C::Pair | C::Trio | C::Vault, "Receive" | "WithdrawLiquidity" | "Withdraw") | (C::Incentive, "CloseFlow"));
+    let sender_checked = (property_need(c, variant).is_some() && !(c == C::Router && variant == "AssertMinimumReceive")) || matches!((c, variant), (C::Pair | C::Trio | C::Vault, "Receive" | "WithdrawLiquidity" | "Withdraw"));
     if cmp == 2 && !sender_checked { vec!["9".to_string()] } else { vec![if accepted { "0".to_string() } else { "1".to_string() }] }
 }
 
 pub const KNOWN_AMR: &str = "router_assert_minimum_receive_unrestricted";
 
-fn cell_replay(phase: u8, c: C, variant: &str, k: usize, who: Who) -> Value {
-    json!({"kind": "auth_matrix_cell", "phase": phase, "contract": c.coq(), "variant": variant, "payload": k, "caller": who.coq(),
+fn cell_replay(phase: u8, c: C, variant: &str, k: usize, who: Who, sib: usize) -> Value {
+    json!({"kind": "auth_matrix_cell", "sibling": sib, "phase": phase, "contract": c.coq(), "variant": variant, "payload": k, "caller": who.coq(),
            "note": "phase 0 as deployed, 1 after top-level ownership transfer to newowner, 2 after pair/trio/vault ownership transfer; each cell runs on a fresh full world"})
 }
 
@@ -438,14 +460,15 @@ fn parse_c(s: &str) -> C { *ALL_C.iter().find(|c| c.coq() == s).expect("contract
 fn parse_who(s: &str) -> Who { *ALL_WHO.iter().find(|w| w.coq() == s).expect("caller name") }
 
 /// evaluate the property's predicate on one executed cell
-fn monitor_cell(out: &mut Out, phase: u8, c: C, variant: &str, k: usize, who: Who, r: &CellResult) {
-    let replay = cell_replay(phase, c, variant, k, who);
+fn monitor_cell(out: &mut Out, phase: u8, c: C, variant: &str, k: usize, who: Who, sib: usize, r: &CellResult) {
+    let replay = cell_replay(phase, c, variant, k, who, sib);
     out.monitor_evals += 1;
     if !r.frame_ok {
         out.monitor_fail("C16", &format!("{} {} by {} (phase {phase}) was rejected but storage or balances changed", c.coq(), variant, who.coq()), replay.clone());
     }
     if let Some(need) = property_need(c, variant) {
-        let rightful = match need { Need::Owner => who == owner_who(c, phase), Need::SelfOnly => who == Who::SelfC, Need::DesignatedOnly => who == Who::Designated };
+        let rightful = match need { Need::Owner => who == owner_who(c, phase), Need::SelfOnly => who == Who::SelfC, Need::DesignatedOnly => who == Who::Designated,
+            Need::CreatorOrFactoryOwner => who == Who::Designated || who == owner_who(C::IncentiveFactory, phase) };
         if !rightful && r.accepted {
             if c == C::Router && variant == "AssertMinimumReceive" {
                 out.known_hit("C16", KNOWN_AMR, &format!("router AssertMinimumReceive accepted from {} (no sender check)", who.coq()), replay.clone());
@@ -466,13 +489,24 @@ pub fn run(args: &Args) {
     if let Some(path) = &args.replay {
         let j = read_replay(path);
         let f = &j["failing_input"];
+        if f["kind"] == "inventory" {
+            let c = parse_c(f["contract"].as_str().unwrap());
+            let inv = rust_inventory(c);
+            let probe = world16(0);
+            let have: Vec<&str> = payloads(&probe, c, &admin()).iter().map(|p| p.variant).collect();
+            let missing: Vec<&String> = inv.iter().filter(|v| !have.contains(&v.as_str())).collect();
+            println!("{} ExecuteMsg variants in the compiled type: {:?}; without a classified payload in the matrix: {:?}", c.coq(), inv, missing);
+            out.finish();
+            std::process::exit(if missing.is_empty() { 0 } else { 1 });
+        }
         if f["kind"] == "ownership_history" { let ok = replay_history(&mut out, f); out.finish(); std::process::exit(if ok { 0 } else { 1 }); }
         let (phase, c, variant, k, who) = (f["phase"].as_u64().unwrap() as u8, parse_c(f["contract"].as_str().unwrap()), f["variant"].as_str().unwrap().to_string(),
             f["payload"].as_u64().unwrap() as usize, parse_who(f["caller"].as_str().unwrap()));
         std::env::set_var("WWVERIF_ERRORS", "1");
-        let r = run_cell(&mut out, phase, c, &variant, k, who);
+        let sib = f["sibling"].as_u64().unwrap_or(0) as usize;
+        let r = run_cell(&mut out, phase, c, &variant, k, who, sib);
         println!("cell {} {} payload {} caller {} phase {}: accepted={} frame_ok={} {}", c.coq(), variant, k, who.coq(), phase, r.accepted, r.frame_ok, r.err);
-        monitor_cell(&mut out, phase, c, &variant, k, who, &r);
+        monitor_cell(&mut out, phase, c, &variant, k, who, sib, &r);
         for f in &out.monitor_failures { println!("MONITOR-FAIL {}", f["what"]); }
         for f in &out.known_hits { println!("KNOWN {}", f["what"]); }
         let failed = !out.monitor_failures.is_empty();
@@ -480,6 +514,16 @@ pub fn run(args: &Args) {
         std::process::exit(if failed { 1 } else { 0 });
     }
     let mut rng = Rng::new(args.seed);
+    // 0. the ownership transfers the later phases rely on must be possible for the owner
+    for ph in [1u8, 2u8] {
+        let x = world16(ph);
+        for c in &x.failed_transfers {
+            out.monitor_evals += 1;
+            out.monitor_fail("C16", &format!("{}: the owner's own ownership transfer to a new owner was rejected", c.coq()),
+                json!({"kind": "ownership_history", "contract": c.coq(), "initial_owner": if c.is_child() { 5 } else { 0 }, "attempts": [[if c.is_child() { 5 } else { 0 }, 1]],
+                       "note": "the hand-over performed while deploying the after-transfer world (children: through their factory) failed"}));
+        }
+    }
     // 1. inventories: compiled message types vs Params.v vs the classification tables
     for c in ALL_C {
         let inv = rust_inventory(c);
@@ -510,19 +554,27 @@ pub fn run(args: &Args) {
         if i >= budget { break; }
         let (phase, c, variant, k) = (*phase, *c, *variant, *k);
         // reference: the ordinary user on an identically prepared world
-        let reference = run_cell(&mut out, phase, c, variant, k, Who::User);
+        let reference = run_cell(&mut out, phase, c, variant, k, Who::User, 0);
+        // callers: the 7 classes; the `sibling` class is played by every other (not state-involved) contract of the world in turn
+        let nsib = { let x = world16(0); x.sibling_pool(c, variant).len() };
+        let mut callers: Vec<(Who, usize)> = vec![];
         for who in ALL_WHO {
-            let r = if who == Who::User { CellResult { accepted: reference.accepted, frame_ok: reference.frame_ok, err: reference.err.clone(), prepared: reference.prepared } } else { run_cell(&mut out, phase, c, variant, k, who) };
-            monitor_cell(&mut out, phase, c, variant, k, who, &r);
+            if who == Who::Sibling {
+                for sx in 0..nsib { callers.push((who, sx)); }
+            } else { callers.push((who, 0)); }
+        }
+        for (who, sib) in callers {
+            let r = if who == Who::User { CellResult { accepted: reference.accepted, frame_ok: reference.frame_ok, err: reference.err.clone(), prepared: reference.prepared } } else { run_cell(&mut out, phase, c, variant, k, who, sib) };
+            monitor_cell(&mut out, phase, c, variant, k, who, sib, &r);
             let privileged = property_need(c, variant).is_some();
             out.count(&format!("{}:{}", if privileged { "privileged" } else { "other" }, if r.accepted { "accepted" } else { "rejected" }));
             out.count(&format!("caller:{}:{}", who.coq(), if r.accepted { "accepted" } else { "rejected" }));
-            if privileged || r.accepted { out.nontrivial_key(hash_str(&format!("{phase}{}{variant}{k}{}", c.coq(), who.coq()))); }
+            if privileged || r.accepted { out.nontrivial_key(hash_str(&format!("{phase}{}{variant}{k}{}{sib}", c.coq(), who.coq()))); }
             // comparability of an `Anyone` cell with the reference run: 0 reference rejected, 1 reference accepted, 2 this caller could not be prepared like the reference
             // (a contract cannot, e.g., open an incentive position in itself): such cells are executed and monitored but carry no expectation
             let cmp = if !(r.prepared && reference.prepared) { 2 } else if reference.accepted { 1 } else { 0 };
             let term = format!("({}, \"{}\"%string, {}, {}, {})", c.coq(), variant, phase, who.coq(), cmp);
-            let replay = cell_replay(phase, c, variant, k, who);
+            let replay = cell_replay(phase, c, variant, k, who, sib);
             if i % 37 == 0 && who == Who::Sibling { out.sample(replay.clone()); }
             if cmp == 2 { out.count("cell_caller_not_preparable"); }
             out.case("c16", &term, &model_obs_shape(c, variant, cmp, r.accepted), replay);
